@@ -27,6 +27,8 @@ struct TaskInfo {
     known_spec: bool,
     /// the time limit the client asked for (None = no limit)
     time_limit_s: Option<u64>,
+    /// the crash limit the client asked for
+    crash: Option<CrashSpec>,
     /// submitted when one of its (transitive) dependencies had already failed / been canceled
     late_dependent: bool,
 }
@@ -969,7 +971,14 @@ impl Monitors {
             self.hq_running.remove(t);
             let snap = pc.tasks.iter().find(|x| conv::tid(x.id) == *t);
             let Some(snap) = snap else { continue };
-            let limit = snap.crash_limit;
+            // the limit the client asked for; the server's own copy only for tasks whose submit
+            // the monitors did not see (restored from a journal)
+            let limit = match self.tasks.get(t).filter(|i| i.known_spec).and_then(|i| i.crash) {
+                Some(CrashSpec::Never) => tako::gateway::CrashLimit::NeverRestart,
+                Some(CrashSpec::Max(n)) => tako::gateway::CrashLimit::MaxCrashes(n),
+                Some(CrashSpec::Unlimited) => tako::gateway::CrashLimit::Unlimited,
+                None => snap.crash_limit,
+            };
             let mut should_fail = false;
             match limit {
                 tako::gateway::CrashLimit::NeverRestart => {
@@ -1385,6 +1394,7 @@ impl Monitors {
                                     n_nodes: req.variants[0].n_nodes,
                                     known_spec: true,
                                     time_limit_s: attrs.time_limit_s,
+                                    crash: Some(attrs.crash),
                                     late_dependent: false,
                                 },
                             );
@@ -1399,6 +1409,7 @@ impl Monitors {
                                     n_nodes: reqs[t.req].variants[0].n_nodes,
                                     known_spec: true,
                                     time_limit_s: t.attrs.time_limit_s,
+                                    crash: Some(t.attrs.crash),
                                     late_dependent: false,
                                 },
                             );
